@@ -50,7 +50,8 @@ RULE = (
     "counts 2^i (a pixel value identifies exactly which samples were summed), several target shapes, plus waves with "
     "the undocumented code 3, plus size mismatches; (b) real Kymo objects for P<=3, k<=2, dead<=2, lead-in<=1, "
     "lines<=3 and real Scan objects for P,L in {2,3}, k<=2, dead<=2, frames<=2 (+frame dead time), both fast-axis "
-    "orders, metadata frame count 0 and explicit, each truncated at EVERY sample (quick: every 2nd/3rd), with a full "
+    "orders, metadata frame count 0 and explicit, each truncated at EVERY sample (quick: a subset of these layouts, every "
+    "2nd/3rd truncation point), with a full "
     "red (ids), an early+short green and an absent blue channel; (c) seeded random kymos/scans (85% up to 8x8x3, 12% up "
     "to 24x24, 3% up to 64x64x5 with k<=8; constant or non-constant samples per pixel, per-line dead times, interleaved "
     "discards, lead-in, tail, truncation biased to the last line/frame/first line/around a boundary, axes drawn from "
